@@ -69,12 +69,20 @@ def replay_main(args) -> int:
     _setup_imports()
     from vf.common import HarnessError
 
-    mod, chk = _load(args.pid, "quick", args.seed, 0, 1)
+    tmp = None
+    if not os.environ.get("VF_SCRATCH"):
+        tmp = tempfile.mkdtemp(prefix=f"vf-replay-{args.pid}-")
+        os.environ["VF_SCRATCH"] = tmp
     try:
-        msg = chk.run_replay_file(Path(args.replay))
-    except HarnessError as e:
-        print(f"HARNESS-ERROR: {e}")
-        return 2
+        mod, chk = _load(args.pid, "quick", args.seed, 0, 1)
+        try:
+            msg = chk.run_replay_file(Path(args.replay))
+        except HarnessError as e:
+            print(f"HARNESS-ERROR: {e}")
+            return 2
+    finally:
+        if tmp is not None:
+            shutil.rmtree(tmp, ignore_errors=True)
     T = next(iter(chk.trackers.values()), None)
     if T is not None and T.known_hits:
         for fid in T.known_hits:
